@@ -72,6 +72,8 @@ func c19ChildMain(spec string) {
 	deep := int(hk / 4) // traceback depth handed to goz.LogPanic (0: the depth of the built-in printer)
 	if deep == 0 {
 		deep = 6
+	} else if deep == 5000 { // the code for depth 0 (no traceback lines at all)
+		deep = 0
 	}
 	switch hk % 4 {
 	case 1:
